@@ -12,7 +12,7 @@ RULE = ("exhaustive: every raster over {0,1} with <= 12 cells (quick) / <= 16 ce
         "with <= 9 (quick) / <= 10 cells, every HxW factorisation incl. 1xN, Nx1, both neighbourhoods; random: <= 20x20 with "
         "U/S/spiral/comb shapes, NaN cells, int32/int64/float32/float64, 2-4 values; oracle = BFS flood fill, label<->component "
         "bijection; non-trivial = distinct raster with a component that needs >= 1 provisional-label merge in a one-pass scan")
-BUDGET = {'quick': 150, 'thorough': 1200}
+BUDGET = {'quick': 300, 'thorough': 1200}
 FLOORS = {'quick': {'bijection': 50000, 'needs_merge': 5000, 'shape.1xN': 100, 'shape.Nx1': 100, 'nan_cells_stay_nan': 3000,
                     'conn8': 20000, 'conn4': 20000},
           'thorough': {'bijection': 500000, 'needs_merge': 50000}}
